@@ -133,10 +133,11 @@ theorem getD_map_range {β : Type} (K : Nat) (g : Nat → β) (j : Nat) (hj : j 
     ((List.range K).map g).getD j d = g j := by
   simp [List.getD_eq_getElem?_getD, hj]
 
-/-- what `unbatchify / max(dim=1) / gather_by_index` returns for instance `b` -/
+/-- what `unbatchify / max(dim=1) / gather_by_index` returns for instance `b`; `k` is `max_idxs[b]` -/
 theorem selectBest_getElem? (K B : Nat) (hK : 0 < K) (rs : List Int) (acts : List (List Nat))
     (hr : rs.length = K * B) (ha : acts.length = K * B) (b : Nat) (hb : b < B) :
-    ∃ k, k < K ∧ (selectBest K rs acts)[b]? = some (rs.getD (k * B + b) 0, acts.getD (k * B + b) [])
+    ∃ k, k < K ∧ (bestIdx K rs)[b]? = some k
+      ∧ (selectBest K rs acts)[b]? = some (rs.getD (k * B + b) 0, acts.getD (k * B + b) [])
       ∧ ∀ k', k' < K → rs.getD (k' * B + b) 0 ≤ rs.getD (k * B + b) 0 := by
   let R := (List.range K).map fun k => rs.getD (k * B + b) 0
   have hRne : R ≠ [] := by
@@ -146,14 +147,15 @@ theorem selectBest_getElem? (K B : Nat) (hK : 0 < K) (rs : List Int) (acts : Lis
   have hRlen : R.length = K := by simp [R]
   obtain ⟨hj, hmax⟩ := argmax_spec R hRne
   rw [hRlen] at hj
-  refine ⟨argmax R, hj, ?_, ?_⟩
-  · have h1 := unbatch_getElem? K B hK rs hr b hb
-    have h2 := unbatch_getElem? K B hK acts ha b hb
-    have d0 : (default : Int) = 0 := rfl
-    have d1 : (default : List Nat) = [] := rfl
-    rw [d0] at h1
-    rw [d1] at h2
-    simp only [selectBest, List.getElem?_zipWith, h1, h2]
+  have h1 := unbatch_getElem? K B hK rs hr b hb
+  have h2 := unbatch_getElem? K B hK acts ha b hb
+  have d0 : (default : Int) = 0 := rfl
+  have d1 : (default : List Nat) = [] := rfl
+  rw [d0] at h1
+  rw [d1] at h2
+  refine ⟨argmax R, hj, ?_, ?_, ?_⟩
+  · simp only [bestIdx, List.getElem?_map, h1, Option.map_some]; rfl
+  · simp only [selectBest, List.getElem?_zipWith, h1, h2]
     congr 1
     rw [getD_map_range K _ _ hj, getD_map_range K _ _ hj]
   · intro k' hk'
@@ -186,7 +188,7 @@ theorem eval_reports_max (rew : I → List Nat → Int) (K : Nat) (hK : 0 < K) (
       (bestOfInner rew K insts acts)[b]? =
         some (rew insts[b] (acts.getD (k * insts.length + b) []), acts.getD (k * insts.length + b) []) ∧
       ∀ k', k' < K → rew insts[b] (acts.getD (k' * insts.length + b) []) ≤ rew insts[b] (acts.getD (k * insts.length + b) []) := by
-  obtain ⟨k, hk, h1, h2⟩ := selectBest_getElem? K insts.length hK (rewardsOn rew K insts acts) acts
+  obtain ⟨k, hk, _, h1, h2⟩ := selectBest_getElem? K insts.length hK (rewardsOn rew K insts acts) acts
     (rewardsOn_length rew K insts acts ha) ha b hb
   refine ⟨k, hk, ?_, ?_⟩
   · rw [bestOfInner, h1, rewardsOn_getD rew K insts acts ha k b hk hb]
@@ -215,17 +217,38 @@ theorem bestOfInner_length (rew : I → List Nat → Int) (K : Nat) (hK : 0 < K)
   simp [bestOfInner, selectBest, unbatch_length K insts.length hK _ (rewardsOn_length rew K insts acts ha),
     unbatch_length K insts.length hK _ ha]
 
-/-- **C15 `eval_reports_max`** for `SamplingEval` (policy-side `_select_best`, reward recomputed on the selected
-rows). -/
-theorem eval_reports_max_sampling (rew : I → List Nat → Int) (S : Nat) (hS : 0 < S) (insts : List I)
+/-- **C15 `eval_reports_max`** for `SamplingEval`, through the policy-side `DecodingStrategy._select_best`: actions and
+STATE rows are gathered with the same `max_idxs` from the start-major replicated batch
+(`Params.augSelectBestGathersTd`, extracted), so the state that `env.get_reward` sees for instance `b` is instance `b`
+itself and the reported reward is the reward of the returned actions on the original instance = max over `b`'s samples. -/
+theorem eval_reports_max_sampling [Inhabited I] (rew : I → List Nat → Int) (S : Nat) (hS : 0 < S) (insts : List I)
     (acts : List (List Nat)) (ha : acts.length = S * insts.length) (b : Nat) (hb : b < insts.length) :
     ∃ k, k < S ∧
       (samplingInner rew S insts acts)[b]? =
         some (rew insts[b] (acts.getD (k * insts.length + b) []), acts.getD (k * insts.length + b) []) ∧
       ∀ k', k' < S → rew insts[b] (acts.getD (k' * insts.length + b) []) ≤ rew insts[b] (acts.getD (k * insts.length + b) []) := by
-  obtain ⟨k, hk, h1, h2⟩ := eval_reports_max rew S hS insts acts ha b hb
-  refine ⟨k, hk, ?_, h2⟩
-  simp [samplingInner, List.getElem?_zipWith, h1, List.getElem?_eq_getElem hb]
+  obtain ⟨k, hk, hidx, _, h2⟩ := selectBest_getElem? S insts.length hS (rewardsOn rew S insts acts) acts
+    (rewardsOn_length rew S insts acts ha) ha b hb
+  refine ⟨k, hk, ?_, ?_⟩
+  · have hB : (tile S insts).length / S = insts.length := by rw [tile_length, Nat.mul_div_cancel_left _ hS]
+    have hu := unbatch_getElem? S insts.length hS acts ha b hb
+    have d1 : (default : List Nat) = [] := rfl
+    rw [d1] at hu
+    have htile : (tile S insts).getD (k * insts.length + b) default = insts[b] := by
+      simp [List.getD_eq_getElem?_getD, tile_getElem? S insts k b hk hb, List.getElem?_eq_getElem hb]
+    simp only [samplingInner, List.getElem?_zipWith, selectTd, hB, List.getElem?_map, List.getElem?_range hb,
+      Option.map_some, hu, hidx, Params.augSelectBestGathersTd, if_true]
+    have hk'' : (bestIdx S (rewardsOn rew S insts acts)).getD b 0 = k := by
+      simp [List.getD_eq_getElem?_getD, hidx]
+    rw [hk'', htile, getD_map_range S _ _ hk]
+  · intro k' hk'
+    have := h2 k' hk'
+    rwa [rewardsOn_getD rew S insts acts ha k' b hk' hb, rewardsOn_getD rew S insts acts ha k b hk hb] at this
+
+/-- the alternative `td = td[:: num_starts]` (instance-major slice of a start-major batch) pairs instance `b` with the
+state of row `b * S`, i.e. of instance `(b * S) % B`: wrong as soon as `(b * S) % B ≠ b`. -/
+example : selectTd false 2 (tile 2 [10, 20, 30]) [0, 0, 0] = [10, 30, 20] := by decide
+example : selectTd true 2 (tile 2 [10, 20, 30]) [1, 0, 1] = [10, 20, 30] := by decide
 
 /-- `GreedyEval` reports the reward of the actions it returns, on the instance they were decoded for. -/
 theorem eval_greedy_reports (rew : I → List Nat → Int) (insts : List I) (acts : List (List Nat))
